@@ -2964,41 +2964,55 @@ impl Context {
             }
             Expr::If(cond, then, else_) => {
                 let (c, _, state_c) = self.eval_expr(*cond);
+                // State bookkeeping of the branches: every arm owns its own state cells,
+                // laid out one after the other (condition, then-arm, else-arm), and every
+                // path advances the state cursor by the size of both arms, so that the
+                // code after the merge (and the final PopStateOffset) sees the same cursor
+                // whichever arm ran. No offset may be pending when the paths split, and
+                // each arm keeps its own account of the offsets it pushes.
+                self.consume_and_insert_pushoffset();
+                let outer_push_sum = self.get_ctxdata().push_sum;
                 let cond_bidx = self.get_ctxdata().current_bb;
 
                 // This is just a placeholder. At this point, the locations of
                 // the block are not determined yet. These 0s will be
                 // overwritten later.
                 let _ = self.push_inst(Instruction::JmpIf(c, 0, 0, 0));
-                //todo: state offset for branches
                 //insert then block
                 let then_bidx = cond_bidx + 1;
+                self.get_ctxdata().push_sum = 0;
                 let (t, _, state_t) = self.eval_block(Some(*then));
+                self.consume_and_insert_pushoffset();
+                let then_last_bidx = self.get_ctxdata().current_bb;
                 //jmp to ret is inserted in bytecodegen
                 //insert else block
                 let else_bidx = self.get_ctxdata().current_bb + 1;
+                self.get_ctxdata().push_sum = 0;
                 let (e, _, state_e) = self.eval_block(*else_);
+                self.consume_and_insert_pushoffset();
                 let then_size = state_t.iter().map(|s| s.total_size()).sum::<u64>();
                 let else_size = state_e.iter().map(|s| s.total_size()).sum::<u64>();
-                let branch_state = match then_size.cmp(&else_size) {
-                    std::cmp::Ordering::Greater => {
-                        let elseb = self.get_current_fn().body.get_mut(else_bidx).unwrap();
-                        elseb.0.push((
+                if else_size > 0 {
+                    // the then-arm finally skips the cells of the else-arm
+                    let thenb = self.get_current_fn().body.get_mut(then_last_bidx).unwrap();
+                    thenb.0.push((
+                        Arc::new(Value::None),
+                        Instruction::PushStateOffset(else_size),
+                    ));
+                }
+                if then_size > 0 {
+                    // the else-arm first skips the cells of the then-arm
+                    let elseb = self.get_current_fn().body.get_mut(else_bidx).unwrap();
+                    elseb.0.insert(
+                        0,
+                        (
                             Arc::new(Value::None),
-                            Instruction::PushStateOffset(then_size - else_size),
-                        ));
-                        state_t.clone()
-                    }
-                    std::cmp::Ordering::Less => {
-                        let thenb = self.get_current_fn().body.get_mut(then_bidx).unwrap();
-                        thenb.0.push((
-                            Arc::new(Value::None),
-                            Instruction::PushStateOffset(else_size - then_size),
-                        ));
-                        state_e.clone()
-                    }
-                    std::cmp::Ordering::Equal => state_t.clone(),
-                };
+                            Instruction::PushStateOffset(then_size),
+                        ),
+                    );
+                }
+                self.get_ctxdata().push_sum = outer_push_sum + then_size + else_size;
+                let branch_state = [state_t, state_e].concat();
                 //insert return block
                 self.add_new_basicblock();
                 let res = self.push_inst(Instruction::Phi(t, e));
